@@ -840,6 +840,42 @@ class MsExhaust(Consumer):
         return None
 
 
+class MsWithDict(Consumer):
+    """MultiStream(sizes, a=<stream>, d=<dict with a value per contig>) walked in lock step by the caller's zip, as a
+    streamable function over both attributes does.  When the dict lacks a contig the library may refuse (KeyError); if
+    the walk completes, every delivered table must sit next to its own contig's value and no entry may be missing"""
+    name = "ms_with_dict"
+    family = "contiglist"
+    hows = ("stream", "file")
+
+    def _missing(self, env):
+        order = env.g.order
+        n_entries = sum(len(es) for _, es in env.a.d.groups)
+        return order[n_entries % len(order)] if (len(order) >= 2 and n_entries % 3 == 0) else None
+
+    def run(self, env):
+        core.bnp()
+        from bionumpy.streams import MultiStream
+        missing = self._missing(env)
+        values = {n: 100 + i for i, n in enumerate(env.g.order) if n != missing}
+        ms = MultiStream(env.G, a=env.a.open_stream(), d=values)
+        return [(t, v) for t, v in zip(ms.a, ms.d)]
+
+    def check(self, env, raw):
+        exp = _exp(env)
+        got_tables = [rows_of(t) for t, _ in raw]
+        missing = self._missing(env)
+        d = compare_tables(env.g, exp, got_tables) if missing is None or len(raw) == len(env.g.order) else \
+            {"what": "walk_stopped_early", "contigs_delivered": len(raw), "contigs": len(env.g.order), "dict_lacks": missing}
+        if d is not None:
+            return d
+        for i, ((t, v), name) in enumerate(zip(raw, env.g.order)):
+            if name != missing and core.plain(v) != 100 + i:
+                return {"what": "dict_value_of_another_contig", "contig": name, "expected": 100 + i, "got": core.plain(v),
+                        "dict_lacks": missing}
+        return None
+
+
 class _Similarity(Consumer):
     family = "contiglist"
     nstreams = 2
@@ -862,10 +898,33 @@ class _Similarity(Consumer):
             return {n: (make_table("interval", by[n]) if by.get(n) else dataclass_of("interval").empty()) for n in env.g.order}
         return core.call(lambda: self._f()(env.G, dicts(0), dicts(1)))
 
+    def model(self, env):
+        """the index computed from sets of covered positions (independent of the library's contingency table)"""
+        a = b = c = n_total = 0
+        for name in env.g.order:
+            size = env.g.sizes[name]
+            cov = []
+            for i in (0, 1):
+                es = dict(env.sources[i].d.groups).get(name) or []
+                cov.append(set(p for e in es for p in range(max(int(e[1]), 0), min(int(e[2]), size))))
+            a += len(cov[0] & cov[1])
+            b += len(cov[0] - cov[1])
+            c += len(cov[1] - cov[0])
+            n_total += size
+        num, den = (a * n_total, (a + b) * (a + c)) if self.func == "forbes" else (a, a + b + c)
+        if den == 0:
+            return float("nan") if num == 0 else float("inf")
+        return num / den
+
     def check(self, env, raw):
         ref = env.opts["reference"]
         got = core.plain(raw)
-        return None if core.same(core.plain(ref), got) else {"what": self.func + "_value", "expected_dict_route": core.plain(ref), "got": got}
+        if not core.same(core.plain(ref), got):
+            return {"what": self.func + "_value", "expected_dict_route": core.plain(ref), "got": got}
+        exp = self.model(env)
+        if not core.same(exp, got, rel=1e-9):
+            return {"what": self.func + "_value_vs_position_sets", "expected": exp, "got": got}
+        return None
 
 
 class Forbes(_Similarity):
@@ -951,5 +1010,5 @@ class EarlyBreak(Consumer):
 
 
 CONSUMERS = [ComputeGI(), ComputeTuple(), ComputeDict(), ForIter(), MaskSum(), PileupData(), TwoTuple(), PileupIndex(), PileupIndexMemory(), PileupIndexOtherGenome(),
-             TrackData(), TrackSum(), MsExhaust(), Forbes(), Jaccard(), MsWrite(), LeftJoin(), CallerZip(), EarlyBreak()]
+             TrackData(), TrackSum(), MsExhaust(), MsWithDict(), Forbes(), Jaccard(), MsWrite(), LeftJoin(), CallerZip(), EarlyBreak()]
 BY_NAME = {c.name: c for c in CONSUMERS}
